@@ -77,6 +77,7 @@ class Profile:
     p_early_term: float = 0.02
     p_combo_ops: float = 0.15
     p_consecutive_ops: float = 0.35
+    p_divergent_sig: float = 0.5        # inside a split, sibling sub-spines may get different signatures
     max_width: int = 7
     rejoin_before_barline: bool = False
     split_kern_only: bool = False
@@ -166,6 +167,7 @@ class _Gen:
         self.types = []       # header type per spine idx
         self.measure_no = 0
         self.open_splits = 0
+        self.colsig = []      # per live column: dict kind -> text (what the generator wrote last on that path)
 
     # cell factories ---------------------------------------------------------------------------------
     def typ(self, col):
@@ -249,8 +251,8 @@ class _Gen:
             self.doc.tags.add('all_null_data_line')
         self.add(Line('data', cells))
 
-    def interp_line(self, kind, *, force_all=False):
-        """kind: clef keysig meter metersym tandem"""
+    def interp_line(self, kind, *, force_all=False, restate=None, only_spine=None):
+        """kind: clef keysig meter metersym tandem.  restate: write this text in every sub-spine of only_spine."""
         rng, p = self.rng, self.p
         vocab = {'clef': CLEFS, 'keysig': KEYSIGS, 'meter': METERS, 'metersym': METERSYMS, 'tandem': TANDEMS}[kind]
         cells = []
@@ -260,7 +262,9 @@ class _Gen:
             sp = self.paths[c]
             t = self.types[sp]
             give = False
-            if kind == 'tandem':
+            if only_spine is not None:
+                give = sp == only_spine
+            elif kind == 'tandem':
                 give = rng.random() < (0.6 if t == '**kern' else 0.3)
             elif t == '**kern':
                 give = True if (p.uniform_signatures or force_all) else rng.random() < 0.6
@@ -269,10 +273,17 @@ class _Gen:
                 if give:
                     self.doc.tags.add('nonkern_signature')
             if give:
-                if kind != 'tandem' and sp in per_spine:
-                    txt = per_spine[sp]        # sub-spines of one spine get the same signature
-                else:
+                if kind != 'tandem' and sp in per_spine and not (restate is None and rng.random() < p.p_divergent_sig):
+                    txt = per_spine[sp]        # sub-spines of one spine usually get the same signature
+                elif kind != 'tandem' and sp in per_spine:
+                    # a sibling sub-spine goes its own way: another signature, or none on this row
+                    self.doc.tags.add('divergent_subspine_signatures')
+                    if rng.random() < 0.4:
+                        cells.append(Cell('nullinterp', '*'))
+                        continue
                     txt = rng.choice(vocab)
+                else:
+                    txt = restate if restate is not None else rng.choice(vocab)
                     per_spine[sp] = txt
                 cells.append(Cell(kind, txt))
                 anything = True
@@ -281,6 +292,10 @@ class _Gen:
         if not anything:
             k = next((c for c in range(len(self.paths)) if self.typ(c) == '**kern'), 0)
             cells[k] = Cell(kind, rng.choice(vocab))
+        if kind != 'tandem':
+            for c, cell in enumerate(cells):
+                if cell.kind == kind:
+                    self.colsig[c][kind] = cell.text
         if kind != 'tandem' and not p.uniform_signatures:
             kern_cols = [c for c in range(len(self.paths)) if self.typ(c) == '**kern']
             if any(cells[c].kind == 'nullinterp' for c in kern_cols) and any(cells[c].kind != 'nullinterp' for c in kern_cols):
@@ -341,7 +356,9 @@ class _Gen:
         cells = [Cell('op', ops[c]) if c in ops else Cell('nullinterp', '*') for c in range(len(self.paths))]
         self.add(Line('op', cells))
         spines = list(self.paths)
-        self.paths = [s for s, _ in SP.next_paths([c.text for c in cells], spines)]
+        nxt = SP.next_paths([c.text for c in cells], spines)
+        self.paths = [s for s, _ in nxt]
+        self.colsig = [dict(self.colsig[src]) for _, src in nxt]
 
     # spine operations -------------------------------------------------------------------------------
     def join_candidates(self):
@@ -360,6 +377,7 @@ class _Gen:
                 ops[c + 2] = '*v'
                 self.doc.tags.add('three_way_join')
             self.doc.tags.add('joins')
+            self.restate_before_join(sorted(ops))
         if allow_split and len(self.paths) + 1 - (len(ops) - 1 if ops else 0) <= p.max_width and rng.random() < p.p_split \
                 and (not ops or rng.random() < p.p_combo_ops):
             cols = [c for c in range(len(self.paths)) if c not in ops and
@@ -388,6 +406,17 @@ class _Gen:
             did = True
         return did
 
+    def restate_before_join(self, cols):
+        """Humdrum does not say which signature governs after a join of sub-spines that carry different ones: re-state a common
+        signature in all sub-spines of that spine first, so that the context after the join is unambiguous."""
+        sp = self.paths[cols[0]]
+        for kind in ('clef', 'keysig', 'meter'):
+            vals = {self.colsig[c].get(kind) for c in cols}
+            if len(vals) > 1:
+                vocab = {'clef': CLEFS, 'keysig': KEYSIGS, 'meter': METERS}[kind]
+                self.interp_line(kind, restate=self.rng.choice(vocab), only_spine=sp)
+                self.doc.tags.add('signature_restated_before_join')
+
     def join_all(self):
         guard = 0
         while self.join_candidates() and guard < 20:
@@ -399,6 +428,7 @@ class _Gen:
             while k < len(self.paths) and self.paths[k] == self.paths[c]:
                 ops[k] = '*v'
                 k += 1
+            self.restate_before_join(sorted(ops))
             self.op_line(ops)
 
     # the document -----------------------------------------------------------------------------------
@@ -424,6 +454,7 @@ class _Gen:
                 self.blank_line()
         self.add(Line('header', [Cell('header', t) for t in types]))
         self.paths = list(range(n))
+        self.colsig = [{} for _ in range(n)]
         if rng.random() < p.p_gcomment:
             self.gcomment_line('inside')
         # initial signatures and tandems
